@@ -95,7 +95,7 @@ def check(run):
     g = typegen.TypeGen(run.seed + 700)
     g.no_allof = True
     r = random.Random(run.seed + 701)
-    n = 420 if quick else 8000
+    n = 420 if quick else 40000
     kinds = ["diff", "diff", "intersect", "union", "keyof", "index", "tuple-any-rest", "diff", "tuple-index"]
     cases = [gen_case(g, r, kinds[i % len(kinds)]) for i in range(n)]
     known = common.load_known("C07")
